@@ -73,11 +73,15 @@ func ClearTimeout(timer *Timer) {
 
 func (t *Timer) Stop() {
 	t.mu.Lock()
+	// Only the first cancel since the timer was armed hands over to the timer goroutine:
+	// while the runtime timer is firing, Stop on it can report "stopped" to more than one
+	// caller, and the goroutine receives exactly once.
+	first := !t.stopped
 	t.stopped = true
 	pending := t.timer.Stop()
 	t.mu.Unlock()
 
-	if pending {
+	if pending && first {
 		if verifhook.Enabled {
 			verifhook.Point("timer.Stop.afterStop", t)
 		}
